@@ -36,8 +36,11 @@ Boundary(e) ==
       \* up to K servers every live node must know the restarted peer; in larger networks (full buckets, lookups that reach
       \* only the closest nodes) at least one other live node must
       relearn == \A p \in DOMAIN started : (p \in alive /\ t - started[p] > 20 * Min) =>
-                   IF nserv <= 20 THEN \A n \in alive \ {p} : (Get(started, n, 0) < t - 20 * Min) => p \in TableOf(n)
-                   ELSE \E n \in alive \ {p} : p \in TableOf(n)
+                   \* (every live node counts, the adaptive client too: after 15 minutes it is a server, it is listed in answers and
+                   \* takes one of the 20 places of a lookup's candidate window)
+                   IF nserv <= 20 /\ Cardinality(alive) <= 20 THEN \A n \in alive \ {p} : (Get(started, n, 0) < t - 20 * Min) => p \in TableOf(n)
+                   \* (somebody must be there to know it: a node other than p that has itself been up for those 20 minutes)
+                   ELSE ({n \in alive \ {p} : Get(started, n, 0) < t - 20 * Min} = {}) \/ \E n \in alive \ {p} : p \in TableOf(n)
       refresh == \A n \in alive \ {first} : (t - Get(started, n, 0) > 17 * Min) => (n \in DOMAIN lr /\ t - lr[n] <= 16 * Min)
       nonempty == \A n \in alive \ {first} : (first \in alive /\ t - Get(started, n, 0) > 1 * Min) => MainSize(n) > 0
       failed == (IF keeps THEN {} ELSE {"C14_KeepsResponsive"}) \cup (IF drops THEN {} ELSE {"C14_DropsDead"})
